@@ -1217,6 +1217,11 @@ for _t in synprint.TOKENS:
     MODELS[_t] = _tok_ctor(_t)
 
 
+for _t in ('Paren', 'Brace', 'Bracket'):
+    MODELS['token::' + _t] = _tok_ctor(_t)
+    MODELS[_t] = _tok_ctor(_t)
+
+
 def _surround(delim):
     def f(ex, c, a):
         ts = ts_of(a[1])
